@@ -33,7 +33,7 @@ ASSUMPTIONS = ['stored random numbers are inputs (nfw=False, no reseed): the NFW
 
 def gen(rng, tier):
     from e1_threads.harness import gen_sched
-    c = HC.gen_tables(rng, tier)
+    c = HC.gen_tables(rng, tier, max_h=200, max_p=400) if (tier == 'thorough' and rng.random() < 0.3) else HC.gen_tables(rng, tier)
     c['Nthread'] = rng.choice([1, 2, 3, 4, 5, 7, 8, 16, 16])
     c['sched'] = gen_sched(rng)
     c['search'] = {'a': sorted(rng.sample(range(0, 400), rng.choice([0, 1, 5, 30]))),
